@@ -305,6 +305,9 @@ func clCleanupOrder(c *Ctx) {
 			if _, isGo := in.(*ssa.Go); isGo {
 				c.Check(false, g, in, "the session destructor is invoked synchronously", "destructors of successive sessions run concurrently")
 			}
+			if _, isDefer := in.(*ssa.Defer); isDefer {
+				c.Check(false, g, in, "the session destructor is invoked in scan order (not deferred)", "deferred calls run last-in-first-out when the scan returns: a pass that drains several sessions destructs them in reverse close order")
+			}
 		}
 	}
 	if nsites == 0 {
@@ -573,5 +576,68 @@ func clTryLockRecheck(c *Ctx) {
 	// informational: same shape in Nitro.GC
 	if gc := p.FuncOpt("nitro", "Nitro", "GC"); gc != nil {
 		c.Note("nitro.(*Nitro).GC has the same try-lock-without-re-check shape; C06's statement permits a forced pass (GC()), so it is reported here for information only and not armed")
+	}
+}
+
+// Accessor tokens taken outside cursors (DeleteNode, Delete2, Visitor, ...)
+// are given back on every path: deferred right after the Acquire, or released
+// before each return.
+func clTokenPairing(c *Ctx) {
+	p := c.P
+	acq := p.Func("skiplist", "AccessBarrier", "Acquire")
+	rel := p.Func("skiplist", "AccessBarrier", "Release")
+	fBs := p.Field("skiplist", "Iterator", "bs")
+	n := 0
+	for _, g := range p.Funcs {
+		pk := g.Package().Pkg.Path()
+		if pk != modPath && pk != modPath+"/skiplist" {
+			continue
+		}
+		if p.sameRoot(g, acq) || p.sameRoot(g, rel) {
+			continue
+		}
+		for _, in := range p.Own(g) {
+			call, ok := in.(*ssa.Call)
+			if !ok || !p.IsCall(in, acq) {
+				continue
+			}
+			// cursor tokens (recorded in Iterator.bs) and tokens handed to the caller are paired elsewhere
+			skip := false
+			for _, r := range referrersOf(call) {
+				switch x := r.(type) {
+				case *ssa.Store:
+					if f, _ := addrField(x.Addr); f == fBs {
+						skip = true
+					}
+				case *ssa.Return:
+					skip = true
+				}
+			}
+			if skip {
+				continue
+			}
+			n++
+			fi := p.Info(p.Root(g))
+			isRel := func(x ssa.Instruction) bool {
+				if _, isGo := x.(*ssa.Go); isGo {
+					return false
+				}
+				cc := callOf(x)
+				if cc == nil || !p.CallsAny(x, rel) {
+					return false
+				}
+				args := callArgs(x)
+				return len(args) == 2 && (strip(args[1]) == ssa.Value(call) || cellHolds(fi, args[1], call))
+			}
+			leak := fi.PathAvoiding(in, func(x ssa.Instruction) bool {
+				r, isR := x.(*ssa.Return)
+				return isR && r.Block() != g.Recover
+			}, isRel)
+			c.Check(leak == nil, g, in, "an accessor token taken for one operation is released on every path",
+				"some path returns with the token still held: the session it was counted in can never terminate, and — destruction being strictly in close order — nothing retired afterwards is ever freed")
+		}
+	}
+	if n < 3 {
+		undecidedf("token pairing: only %d operation-scoped Acquire sites found", n)
 	}
 }
